@@ -226,7 +226,8 @@ pub fn execute_c(case: &CaseC, stats: &mut WireStats, digest: &mut u64) -> Optio
   if let Err(e) = writer.send(&case.batch) { return Some(Violation::new("C18-write-error", 0, format!("the real writer failed on a pipe: {}", e))); }
   stats.batches += 1;
   let bytes = drain(p.out_r);
-  for b in &bytes { d.u(*b as u64); }
+  // digest over (type, code, value) only: the time stamp of a record is not pinned by the property
+  for rec in bytes.chunks(REC) { if rec.len() == REC { let (t, c, v) = decode_record(rec); d.u(t as u64); d.u(c as u64); d.u(v as u32 as u64); } else { d.u(0xBAD); d.u(rec.len() as u64); } }
   if let Err(e) = check_wire(&bytes, &case.batch) { return Some(Violation::new("C18-wire", 0, e)); }
   let read_all = |reader: &mut DevInputReader| -> Result<Vec<Event>, String> {
     let mut got = vec![];
